@@ -61,6 +61,18 @@ func coResume(L *LState) int {
 		L.Push(LString(msg))
 		return 2
 	}
+	if L.Status(th) == "normal" {
+		// th is waiting for the running thread (directly or through other threads): resuming it
+		// would re-enter a thread that is in the middle of a resume
+		msg := "can not resume a normal thread"
+		if th.wrapped {
+			L.RaiseError(msg)
+			return 0
+		}
+		L.Push(LFalse)
+		L.Push(LString(msg))
+		return 2
+	}
 	th.Parent = L
 	L.G.CurrentThread = th
 	if !th.isStarted() {
